@@ -4,9 +4,10 @@
 set -u
 patch="$1"; shift
 tier="${TIER:-quick}"
-if ! git -C /repo diff --quiet; then echo "/repo has uncommitted changes; refusing"; exit 2; fi
+if [ -n "$(git -C /repo status --porcelain)" ]; then echo "/repo has uncommitted changes or untracked files; refusing"; exit 2; fi
 if ! git -C /repo apply "$patch"; then echo "patch does not apply"; exit 2; fi
-trap 'git -C /repo checkout -- . ' EXIT
+# undo by reverse-applying (this also removes files the patch created), then make sure nothing is left
+trap 'git -C /repo apply -R "$patch" 2>/dev/null; git -C /repo checkout -- . ; git -C /repo clean -fdq -- packages' EXIT
 for p in "$@"; do
   log="/tmp/mut-$p.log"
   start=$(date +%s)
